@@ -344,6 +344,7 @@ func runC11(c *Ctx, idx int) {
 		}
 		for k := 0; k < 12; k++ {
 			s := snapGenome(g)
+			modularVariants(r, s)
 			for i := range s.Modules {
 				s.Modules[i].En = r.Intn(3) != 0
 			}
